@@ -12,9 +12,14 @@
      * otherwise it sends a snapshot, whose pages are those of world(primary pos) (C10).
    Liveness is proved as a bound on the number of stream iterations (no wall-clock statement).
    The kernel page cache is exercised by the harness with a simulated cache fed only by the
-   Invalidator callbacks; it is not part of the model. *)
+   Invalidator callbacks; it is not part of the model.
+   Round 8, WITHOUT that premise, for rollback-journal histories (C01_follower_identical): a follower
+   that is sent, step by step, the files a primary's log gains holds page for page what the
+   primary's database file holds, at the same position - for every history from empty nodes.
+   The argument is about contents, not checksums: a page that is not in a transaction's file was
+   not in the dirty set, hence is what it was (SameM), hence what the follower already has (Sim). *)
 From Coq Require Import NArith List Bool.
-Require Import LF.Model.PageDB LF.Model.Repl LF.Proofs.ChainProofs LF.Proofs.ReplProofs.
+Require Import LF.Model.PageDB LF.Model.Repl LF.Proofs.ChainProofs LF.Proofs.ReplProofs LF.Proofs.HistoryProofs LF.Proofs.FollowProofs.
 Import ListNotations.
 Local Open Scope N_scope.
 
@@ -44,3 +49,32 @@ Proof.
     | false => fun H0 => let '(conj a (conj b (conj c _))) := apply_done _ f true s' H0 in conj a (conj b c)
     end H).
 Qed.
+
+(* Primary and follower, both starting empty.  [hs]: any rollback-journal history of the primary ([wf_hist]: what SQLite's pager
+   guarantees, as in C04_journal_history).  [follow] runs it step by step; after each step the follower is sent the files the
+   primary's log gained in it ([new_files]; [run_recv] is processLTXStreamFrame: position check, placement, apply with its
+   checksum verification - a follower that exits has no final state).  [fpg s p]: what the database file holds at page p.
+   For EVERY such history: the follower is at the primary's position and its file holds what the primary's holds on every
+   page of the database but the lock page.  Nothing is assumed about checksums. *)
+Theorem C01_follower_identical : forall lock hs sP sR,
+  1 <= lock -> wf_hist (init lock) hs -> follow (init lock) (init lock) hs = Some (sP, sR) ->
+  txid sR = txid sP /\ chk sR = chk sP /\ pageN sR = pageN sP /\
+  (forall p, 1 <= p <= pageN sP -> p <> lock -> fpg sR p = fpg sP p).
+Proof. exact follower_identical. Qed.
+Print Assumptions C01_follower_identical.
+
+(* Non-vacuity: create 2 pages; grow to 5 writing only pages 1 and 5 (3 and 4 are gaps the file system fills); a transaction
+   that spills pages 2 and 7 and is rolled back; shrink to 3 and truncate - four files reach the follower *)
+Example C01_follower_identical_nonvacuous :
+  let pg h := mkPg (fl h) 0 false in
+  let hs := [HTx [] [AWrite 1 (pg 11); AWrite 2 (pg 12)] 2;
+             HTx [(3, pg 33); (4, pg 44)] [AWrite 1 (pg 21); AWrite 5 (pg 55)] 5;
+             HTx [] [AWrite 2 (pg 77); AWrite 7 (pg 70); AWrite 2 (pg 12); ACut] 5;
+             HTx [] [AWrite 2 (pg 92)] 3; HTrunc 3] in
+  wf_hist (init 2097153) hs /\
+  match follow (init 2097153) (init 2097153) hs with
+  | Some (sP, sR) => (txid sR, pageN sR, chk sR =? chk sP, map (fpg sR) [1; 2; 3], lenN (dbfile sR), length (ltxdir sP))
+                     = (4, 3, true, [pg 21; pg 92; pg 33], 3, 4%nat)
+  | None => False
+  end.
+Proof. exact follower_identical_example. Qed.
